@@ -98,15 +98,25 @@ impl CommandAcknowledgementHandle {
     pub(crate) fn done(&self, status: CommandStatus) {
         #[cfg(cached_verif)]
         crate::cache::verif::point("ack.done.1");
+        #[cfg(cached_verif)]
+        crate::cache::verif::lock_acquire("AckStatus");
         *self.status.lock() = status;
+        #[cfg(cached_verif)]
+        crate::cache::verif::lock_release("AckStatus");
+
         #[cfg(cached_verif)]
         crate::cache::verif::point("ack.done.2");
         self.done.store(true, Ordering::Release);
         #[cfg(cached_verif)]
         crate::cache::verif::point("ack.done.3");
+        #[cfg(cached_verif)]
+        crate::cache::verif::lock_acquire("AckWaker");
         if let Some(waker) = &self.waker_state.lock().waker {
             waker.wake_by_ref();
         }
+        #[cfg(cached_verif)]
+        crate::cache::verif::lock_release("AckWaker");
+
     }
 }
 
@@ -119,6 +129,8 @@ impl Future for &CommandAcknowledgementHandle {
     fn poll(self: Pin<&mut Self>, context: &mut Context<'_>) -> Poll<Self::Output> {
         #[cfg(cached_verif)]
         crate::cache::verif::point("ack.poll.lock");
+        #[cfg(cached_verif)]
+        let _verif_lock = crate::cache::verif::lock_scope("AckWaker");
         let mut guard = self.waker_state.lock();
         #[cfg(cached_verif)]
         crate::cache::verif::point("ack.poll.register");
@@ -137,6 +149,8 @@ impl Future for &CommandAcknowledgementHandle {
         if self.done.load(Ordering::Acquire) {
             #[cfg(cached_verif)]
             crate::cache::verif::point("ack.poll.ready");
+            #[cfg(cached_verif)]
+            let _verif_lock_status = crate::cache::verif::lock_scope("AckStatus");
             return Poll::Ready(*self.status.lock());
         }
         #[cfg(cached_verif)]
